@@ -187,6 +187,20 @@ def run(ctx):
 
     def identify(data, via_path=False):
         nonlocal slow
+        import signal
+
+        def _late(_s, _f):
+            raise TimeoutError('identification still running after 15 s')
+        old_h = signal.signal(signal.SIGALRM, _late)
+        signal.alarm(15)
+        try:
+            return _identify(data, via_path)
+        finally:
+            signal.alarm(0)
+            signal.signal(signal.SIGALRM, old_h)
+
+    def _identify(data, via_path=False):
+        nonlocal slow
         t0 = time.time()
         if via_path:
             p = os.path.join(wd, 'f.bin')
@@ -290,6 +304,17 @@ def run(ctx):
             text += '1165665077 09Dec06 11-51-17 1\n'
         robust(text.encode('ascii'), 'a DAT-shaped text with the data row %r' % (row,))
     ctx.case(('dat-extremes',), True)
+    # LAS-shaped texts whose version line is off in some way: long runs of digits, dots, blanks, missing colon, missing value - the
+    # recogniser's line patterns must say no (or yes) at once, whatever the run lengths
+    runs = ['2', '2.0', '1.2', '20', '2' * 12, '2' * 30, '2' * 60, '1.' * 20, '.' * 40, '2.0' * 15, '9' * 200, '1' * 29 + 'x', ' ' * 80, '2 ' * 30]
+    for t in range(ctx.pick(300, 3000)):
+        ver = rng.choice(runs)
+        tail = rng.choice([' : CWLS LOG ASCII STANDARD', ':', '', ' ', ' CWLS', ' : ' + 'x' * 300, '\t:\t'])
+        head = rng.choice(['~Version Information Section', '~V', '~VERSION', '~v', '# c\n~V', '\n\n~V'])
+        vers = rng.choice(['VERS.', 'VERS .', ' VERS.   ', 'VERS.\t', 'vers.'])
+        text = '%s\n%s%s%s\nWRAP. NO : one line\n~A\n1 2\n' % (head, vers, ver, tail)
+        robust(text.encode('ascii'), 'a LAS-shaped text with the version line %r' % (vers + ver + tail)[:80])
+    ctx.case(('las-version-lines',), True)
     # structured prefixes and random strings
     ebc_printable = [b for b in range(256) if b in (0x40, 0x4b, 0x4c, 0x4d, 0x4e, 0x50, 0x5a, 0x5b, 0x5c, 0x5d, 0x5e, 0x60, 0x61, 0x6b, 0x6c, 0x6d, 0x6e, 0x6f,
                                                      0x7a, 0x7b, 0x7c, 0x7d, 0x7e, 0x7f) or 0x81 <= b <= 0x89 or 0x91 <= b <= 0x99 or 0xa2 <= b <= 0xa9
